@@ -217,8 +217,9 @@ def run_seeds(res, p, seeds):
         for limit in (0, 1, 3):
             g = GeneralInstanceGenerator(seed=seed, iteration_limit=limit, **p)
             names = [g.generate().name, g.generate().name]
-            first = list(g)
-            second = list(g)
+            # (bounded: an iterator that never stops is a violation, not a hang)
+            first = list(itertools.islice(g, limit + 4))
+            second = list(itertools.islice(g, limit + 4))
             res.add("transitions", 2 + len(first) + len(second))
             if len(first) != limit or len(second) != limit:
                 res.violation("iteration_limit", "wrong-number-of-instances", parameters=p, limit=limit, first=len(first), second=len(second))
